@@ -70,10 +70,26 @@ def witnesses(func_result, ob, repo_root, tier):
 
 def replay(entry, repo_root):
     r = entry.get('replay') or {}
+    if r.get('kind') == 'status':
+        f = _status_job(dict(r['case'], repo=repo_root))
+        return f[0]['what'] if f else None
     if r.get('kind') == 'ops':
         f = _drive((r['a'], r['b'], r['opt'], r['ops'], r['quiet']))
         return f[0]['what'] if f else None
     return None
+
+
+def _status_job(case):
+    """The script the real command prints is the same with the status / progress output on (the default), with --no-status
+    and with --quiet - also for text with carriage returns, CR LF line ends and the other Unicode line separators (the
+    status writer re-assembles the rendering line by line).  Reuses C14's subprocess case."""
+    import props.C14 as C14
+    r = C14._run_status_case(case)
+    if not r:
+        return []
+    r['class'] = 'c05-status-setting-changes-script' if r['class'] == 'c14-status-setting-changes-output' else 'c05-' + r['class'][4:]
+    r['replay'] = {'kind': 'status', 'case': {k: v for k, v in case.items() if k != 'repo'}}
+    return [r]
 
 
 def _script(edit):
@@ -225,11 +241,15 @@ def bounded(tier, seed, repo_root):
     pj += [(a, b, o) for (a, b) in PAIRS for o in gt.OPTION_COMBOS]
     for fs in pmap(_print_job, pj, repo_root, job_timeout=60, on_timeout=timeout_failure('C05')):
         fails.extend(fs)
+    sc = [{'ft': ft, 'fmt': fmt, 'same': same, 'repo': repo_root} for ft in ('json', 'yaml', 'json-sep', 'yaml-sep', 'xml-sep', 'csv-sep')
+          for fmt in (None, 'yaml', 'json') for same in (False, True)]
+    for fs in pmap(_status_job, sc, repo_root, chunksize=1, job_timeout=400, on_timeout=timeout_failure('C05')):
+        fails.extend(fs)
     return [{
         'name': 'C05.interleavings', 'bound': f"{len(PAIRS)} nested document pairs x all operation sequences over {OPS} up to "
         f"length {L} ({len(seqs)}) + {len(longer)} seeded longer ones, random option combination and quiet flag, + the diff()-style "
         f"driving loop (tighten until is_complete(), then list) in {len(DIFF_SEQS)} combinations x 9 options; "
-        f"{len(pj)} pairs rendered under quiet x colour",
+        f"{len(pj)} pairs rendered under quiet x colour; {len(sc)} subprocess runs of the real command under status on / --no-status / --quiet (documents with CR, CR LF and Unicode line separators)",
         'evaluations': len(jobs) + len(pj) * 4, 'distinct_nontrivial': len({(repr(j[0]), repr(j[1]), j[3]) for j in jobs if j[3]}),
         'exhaustive': False,
         'rule': 'drive the edit returned by TreeNode.edits with the operation sequence, then refine to fix-point: final cost '
